@@ -75,7 +75,11 @@ async_queue_t* async_queue_create(size_t capacity, size_t max_msg_size, async_qu
     }
     
     /* Allocate circular buffer (each slot: size_t for length + message data) */
-    queue->msg_slot_size = sizeof(size_t) + max_msg_size;
+    /* Slot size is rounded up to a multiple of sizeof(size_t): the length header of
+     * every slot is accessed as a size_t and must stay aligned when max_msg_size is
+     * not a multiple of 8 (misaligned access is undefined behaviour). */
+    queue->msg_slot_size = sizeof(size_t) +
+        ((max_msg_size + sizeof(size_t) - 1) / sizeof(size_t)) * sizeof(size_t);
     queue->buffer = calloc(capacity, queue->msg_slot_size);
     if (!queue->buffer) {
         if (flags & ASYNC_QUEUE_SIGNAL_ON_DATA) {
